@@ -101,6 +101,7 @@ Definition deposit_launchpad_tokens (e : env) (w : world) (total_winning : N) : 
 Definition set_ticket_price (e : env) (w : world) (tok amt : N) : res world :=
   do_ only_owner e;
   do_ require_stage e (st w) AddTickets;
+  do_ (if negb (tok =? egld) then require (negb (lp_token (st w) =? tok)) else Ok tt);
   do s' <- try_set_ticket_price (st w) tok amt;
   Ok (emit (set_st w s') EvSetPrice (event_hdr e ++ [tok; 0; amt])).
 
